@@ -39,45 +39,30 @@ func (e StdEng) denseTranspose(a DenseTensor, expStrides []int) {
 	}
 }
 
+// transposeIterator walks the lazily transposed tensor in the order in which its elements
+// are to be laid out: last axis fastest for row-major tensors, first axis fastest for
+// column-major ones.
+func transposeIterator(a DenseTensor) *FlatIterator {
+	it := newFlatIterator(a.Info())
+	it.outerFirst = a.DataOrder().IsColMajor()
+	return it
+}
+
 func (e StdEng) transposeMask(a DenseTensor) {
 	if !a.(*Dense).IsMasked() {
 		return
 	}
 
-	shape := a.Shape()
-	if len(shape) != 2 {
-		// TODO(poopoothegorilla): currently only two dimensions are implemented
-		return
+	orig := a.(*Dense).Mask()
+	tmp := make([]bool, len(orig))
+
+	it := transposeIterator(a)
+	var j int
+	for i, err := it.Next(); err == nil; i, err = it.Next() {
+		tmp[j] = orig[i]
+		j++
 	}
-	n, m := shape[0], shape[1]
-	mask := a.(*Dense).Mask()
-	size := len(mask)
-
-	track := NewBitMap(size)
-	track.Set(0)
-	track.Set(size - 1)
-
-	for i := 0; i < size; i++ {
-		srci := i
-		if track.IsSet(srci) {
-			continue
-		}
-		srcv := mask[srci]
-		for {
-			oc := srci % n
-			or := (srci - oc) / n
-			desti := oc*m + or
-
-			if track.IsSet(desti) {
-				break
-			}
-			track.Set(desti)
-			destv := mask[desti]
-			mask[desti] = srcv
-			srci = desti
-			srcv = destv
-		}
-	}
+	copy(orig, tmp)
 }
 
 func (e StdEng) denseTranspose1(a DenseTensor, expStrides []int) {
